@@ -28,7 +28,12 @@ def sh(cmd, cwd=None, timeout=1800, env=None):
 
 def refresh():
     EVAL_VERIF.mkdir(exist_ok=True)
-    sh(f"rsync -a --delete --exclude .git --exclude replays --exclude '.build/clib*' --exclude '.build/seedcli*' /verif/ {EVAL_VERIF}/")
+    if os.environ.get("SEEDED_FROM_HEAD"):
+        # proof work may be going on in the working tree: take the tracked files from the last commit instead, on top of
+        # the build products of the previous copy (lake rebuilds what differs)
+        sh(f"git -C /verif archive HEAD | tar -x -C {EVAL_VERIF}")
+    else:
+        sh(f"rsync -a --delete --exclude .git --exclude replays --exclude '.build/clib*' --exclude '.build/seedcli*' /verif/ {EVAL_VERIF}/")
     if not EVAL_REPO.exists():
         sh(f"git -C /repo worktree add -f {EVAL_REPO} HEAD")
     sh("git checkout -q --detach $(git -C /repo rev-parse HEAD) && git checkout -- . && git clean -fdq -e target", cwd=EVAL_REPO)
